@@ -137,10 +137,14 @@ func solveAll(w *World, obls []*Obligation, secs int, depth int, seed int, workD
 			_ = os.WriteFile(file, []byte(text), 0644)
 			o.Script = file
 			first := secs
-			if len(o.Splits) > 0 && first > 3 {
+			if (len(o.Splits) > 0 || o.MustFail) && first > 3 {
 				first = 3
 			}
-			r := solveScript(file, first, order, false)
+			ord := order
+			if o.MustFail {
+				ord = order[:1]
+			}
+			r := solveScript(file, first, ord, false)
 			o.Result, o.Solver, o.Ms, o.Model = r.result, r.solver, r.ms, r.output
 			if r.result != "unsat" && r.result != "sat" && len(o.Splits) > 0 {
 				solveSplit(w, o, prelude, depth, secs, order, workDir, i)
